@@ -89,6 +89,23 @@ func (P *Program) VerifyFunc(fn *ssa.Function, ct *Contract, full bool, pathCap 
 				x.assumedClauses = append(x.assumedClauses, relName(fn)+": "+rq.Text)
 			}
 		}
+		// a clause tagged for a property the function is not verified under would never be proved
+		tagCheck := func(cls []*Clause) {
+			for _, cl := range cls {
+				for _, pr := range cl.Props {
+					if !hasProp(ct.Props, pr) {
+						x.specErrs = append(x.specErrs, fmt.Sprintf("clause %q is tagged %s but the contract's props do not list it", cl.Label, pr))
+					}
+				}
+			}
+		}
+		tagCheck(ct.Ensures)
+		for _, cls := range ct.LoopInv {
+			tagCheck(cls)
+		}
+		for _, cls := range ct.LoopEns {
+			tagCheck(cls)
+		}
 		// bind check for loop clauses
 		for n := range ct.LoopInv {
 			if n < 1 || n > len(x.loops) {
@@ -177,12 +194,15 @@ func (env *Env) mcall(e *Expr) SV {
 	if !wantPtr && havePtr {
 		bt := derefType(recv.Ty)
 		rv = SV{T: x.loadStructRef(env.st, recv.T, bt), Ty: bt}
-	} else if wantPtr && !havePtr {
-		return env.fail("method %s needs an addressable receiver", e.Name)
 	}
 	args := []Val{{T: rv.T}}
 	names := []string{callee.Params[0].Name()}
 	tys := []types.Type{callee.Params[0].Type()}
+	if wantPtr && !havePtr {
+		// a struct value used as the receiver of a pointer method (the compiler takes the
+		// address of the variable): the contract's `s.f` reads the fields of that value
+		tys[0] = recv.Ty
+	}
 	for i, a := range e.Args[1:] {
 		av := env.eval(a)
 		args = append(args, Val{T: av.T})
@@ -195,7 +215,7 @@ func (env *Env) mcall(e *Expr) SV {
 		key += "$" + a.T.Key()
 	}
 	rt := callee.Signature.Results().At(0).Type()
-	if m, ok := x.pureMemo[key]; ok && !wantPtr {
+	if m, ok := x.pureMemo[key]; ok && !(wantPtr && havePtr) {
 		env.st.add(m.facts...)
 		return SV{T: m.r, Ty: rt}
 	}
